@@ -30,6 +30,46 @@ CORPUS = [
     ("iter-without-element-sum", ["C03"], [["fndecl", "f", [], "never", [ret(["call", V("f")])]], ["set", "x", ["expr", ["post", V("f"), "$+"]]], E(I(1))]),
     ("iter-without-element-product", ["C03"], [["fndecl", "f", [], ["tup", "never", "int"], [ret(["call", V("f")])]], ["set", "x", ["expr", ["post", V("f"), "$*"]]], E(I(1))]),
     ("iter-without-element-all", ["C03"], [["fndecl", "f", [], "never", [ret(["call", V("f")])]], ["fndecl", "g", [], "bool", [ret(["post", V("f"), "$&&"])]], E(I(1))]),
+    ("union-of-cells-assign-unsound", ["C01", "C13", "C02"], [
+        ["set", "a", ["expr", ["mut", None, I(1)]]], ["set", "b", ["expr", ["mut", None, B(True)]]],
+        ["set", "c", ["if", ["pre", "deref", V("b")], ["block", E(V("a"))], ["block", E(["mut", None, ["c", ["f", 4609434218613702656]]])]]],
+        E(["bin", "=", V("c"), ["c", ["f", 4612811918334230528]]]),
+        E(["bin", "+", ["pre", "deref", V("a")], I(1)])]),
+    ("union-of-cells-assign-ok", ["C13"], [
+        ["set", "a", ["expr", ["mut", None, I(1)]]], ["set", "b", ["expr", ["mut", None, B(True)]]],
+        ["set", "c", ["if", ["pre", "deref", V("b")], ["block", E(V("a"))], ["block", E(["mut", None, I(2)])]]],
+        E(["bin", "+=", V("c"), I(5)]),
+        E(["tuple", ["pre", "deref", V("a")], ["pre", "deref", V("c")]])]),
+    ("narrowed-to-never-opassign", ["C03"], [
+        ["set", "c", ["expr", ["mut", None, I(1)]]],
+        ["fndecl", "f", [], "int", [
+            ["set", "y", ["if", B(True), ["return", ["expr", I(1)]], ["block", E(V("c"))]]],
+            ["set", "z", ["expr", ["bin", "+=", V("y"), I(1)]]], ret(I(2))]],
+        E(["call", V("f")])]),
+    ("narrowed-to-never-index", ["C03"], [
+        ["fndecl", "g", [], "int", [
+            ["set", "x", ["if", B(True), ["return", ["expr", I(1)]], ["block", E(["array", I(1)])]]],
+            ["set", "y", ["expr", ["at", V("x"), I(0)]]], ret(V("y"))]],
+        E(["call", V("g")])]),
+    ("narrowed-to-never-in-loop", ["C03"], [
+        ["set", "k", ["expr", ["mut", None, I(0)]]],
+        ["stm", ["while", ["bin", "<", ["pre", "deref", V("k")], I(1)], ["block",
+            E(["bin", "+=", V("k"), I(1)]),
+            ["set", "x", ["if", B(True), ["block", ["stm", "break"]], ["block", E(["array", I(1)])]]],
+            ["set", "y", ["expr", ["at", V("x"), I(0)]]]]]],
+        E(["pre", "deref", V("k")])]),
+    ("narrowed-to-never-destruct-field-call", ["C03"], [
+        ["fndecl", "g", [], "int", [
+            ["destruct", ["a", "b"], ["if", B(True), ["return", ["expr", I(1)]], ["block", E(["tuple", I(1), I(2)])]]],
+            ["set", "s", ["if", B(True), ["return", ["expr", I(1)]], ["block", E(["struct", ["a", I(1)]])]]],
+            ["set", "q", ["expr", ["facc", V("s"), "a"]]],
+            ["set", "t", ["if", B(True), ["return", ["expr", I(1)]], ["block", E(["tuple", I(1), I(2)])]]],
+            ["set", "r", ["expr", ["tacc", V("t"), 0]]],
+            ["set", "h", ["if", B(True), ["return", ["expr", I(1)]], ["block", E(V("g"))]]],
+            ["set", "w", ["expr", ["call", V("h")]]],
+            ret(V("a"))]],
+        E(["call", V("g")])]),
+    ("map-with-never-mapper", ["C03"], [["set", "x", ["expr", ["bin", "@", ["post", ["array", I(1)], "~"], ["at", ["array"], I(0)]]]], E(I(1))]),
     ("mut-union-deref", ["C03", "C05"], [
         ["fndecl", "f", [["m", ["multi", ["mut", "int"], ["mut", "float"]]]], ["multi", "int", "float"], [ret(["pre", "deref", V("m")])]],
         E(["call", V("f"), ["mut", None, I(1)]])]),
@@ -117,6 +157,55 @@ CORPUS = [
     ("union-end-marker-default", ["C05"], [
         ["set", "it", ["expr", ["post", ["array", I(1), S("a")], "~"]]],
         E(["call", V("it")]), E(["call", V("it")]), E(["call", V("it")])]),
+    ("typefilter-names-do-not-leak", ["C06"], [
+        ["fndecl", "f", [["default", "int"], ["iterator", "string"]], ["tup", "int", "string"], [
+            ["set", "floats", ["expr", ["post", ["tfilter", ["post", ["array", I(1), ["c", ["f", 4612811918334230528]], I(3)], "~"], "float"], "$]"]]],
+            ret(["tuple", V("default"), V("iterator")])]],
+        E(["call", V("f"), I(7), S("it")])]),
+    ("helper-names-do-not-leak", ["C06", "C11"], [
+        ["fndecl", "f", [["func", "int"], ["mapper", "int"], ["predicate", "int"], ["res", "int"], ["con", "int"], ["value", "int"], ["array", "int"], ["i", "int"], ["len", "int"], ["iter", "int"], ["acc", "int"], ["curr", "int"]], ["arr", "int"], [
+            ["set", "a", ["expr", ["post", ["bin", "?", ["bin", "@", ["post", ["array", I(1), I(2), I(3)], "~"], ["fn", [["x", "int"]], "int", [ret(["bin", "+", V("x"), V("value")])]]], ["fn", [["x", "int"]], "bool", [ret(["bin", ">", V("x"), V("con")])]]], "$]"]]],
+            ["set", "s", ["expr", ["post", ["post", V("a"), "~"], "$+"]]],
+            ["stm", ["for", "q", ["post", V("a"), "~"], ["block", E(V("q"))]]],
+            ret(["array", V("func"), V("mapper"), V("predicate"), V("res"), V("con"), V("value"), V("array"), V("i"), V("len"), V("iter"), V("acc"), V("curr"), V("s")])]],
+        E(["call", V("f"), I(1), I(2), I(3), I(4), I(5), I(6), I(7), I(8), I(9), I(10), I(11), I(12)])]),
+    ("param-named-like-function", ["C06", "C17"], [
+        ["fndecl", "id", [["id", "int"]], "int", [ret(["bin", "+", V("id"), I(1)])]],
+        E(["tuple", ["call", V("id"), I(5)], ["post", ["bin", "@", ["post", ["array", I(1), I(2)], "~"], V("id")], "$]"]])]),
+    ("match-value-mixed-types", ["C12", "C19"], [
+        ["fndecl", "k", [["x", ["multi", "int", "string"]]], "int", [
+            ret(["call", ["fn", [], "int", [["stm", ["match", V("x"),
+                ["aval", [I(1), S("a")], ["return", ["expr", I(10)]]],
+                ["atype", "i", "int", ["return", ["expr", I(20)]]],
+                ["atype", "s", "string", ["return", ["expr", I(30)]]]]], ret(I(0))]]])]],
+        E(["array", ["call", V("k"), I(1)], ["call", V("k"), S("a")], ["call", V("k"), I(2)], ["call", V("k"), S("b")]])]),
+    ("ifset-wider-declared-type", ["C12"], [
+        ["fndecl", "k", [["v", ["multi", "int", "string", "float"]]], "int", [
+            ["stm", ["ifset", "x", ["multi", "int", "string"], V("v"), ["return", ["expr", I(1)]], None]],
+            ret(I(2))]],
+        ["fndecl", "a", [["v", ["arr", "int"]]], "int", [
+            ["stm", ["ifset", "x", "any", V("v"), ["return", ["expr", I(1)]], None]], ret(I(2))]],
+        E(["array", ["call", V("k"), I(1)], ["call", V("k"), S("s")], ["call", V("k"), ["c", ["f", 4612811918334230528]]], ["call", V("a"), ["array"]]])]),
+    ("whileset-wider-declared-type", ["C12"], [
+        ["set", "src", ["expr", ["array", I(1), ["c", ["f", 4612811918334230528]], I(3), S("stop"), I(9)]]],
+        ["set", "i", ["expr", ["mut", None, I(0)]]],
+        ["stm", ["whileset", "x", ["multi", "int", "float"], ["at", V("src"), ["pre", "deref", V("i")]], ["block", E(["bin", "+=", V("i"), I(1)])]]],
+        E(["pre", "deref", V("i")])]),
+    ("break-after-constant-while-rejected", ["C12", "C02"], [
+        ["stm", ["while", B(False), ["block", E(I(1))]]], ["stm", "break"], E(I(1))]),
+    ("continue-after-constant-while-true-rejected", ["C12", "C02"], [
+        ["stm", ["while", B(True), ["block", ["stm", "break"]]]], ["stm", ["if", B(True), ["block", ["stm", "continue"]], None]], E(I(1))]),
+    ("break-in-function-inside-loop-rejected", ["C12", "C02"], [
+        ["stm", ["loop", ["block", ["fndecl", "stop", [], None, [["stm", "break"]]], E(["call", V("stop")]), ["stm", "break"]]]], E(I(1))]),
+    ("continue-in-closure-inside-for-rejected", ["C12", "C02"], [
+        ["stm", ["for", "x", ["post", ["array", I(1)], "~"], ["block", ["set", "g", ["expr", ["fn", [], None, [["stm", "continue"]]]]], E(["call", V("g")])]]], E(I(1))]),
+    ("return-outside-function-rejected", ["C12", "C02"], [["stm", ["return", ["expr", I(1)]]]]),
+    ("break-after-loop-rejected", ["C12", "C02"], [["stm", ["loop", ["block", ["stm", "break"]]]], ["stm", "break"]]),
+    ("break-in-match-arm-of-loop-ok", ["C12"], [
+        ["set", "c", ["expr", ["mut", None, I(0)]]],
+        ["stm", ["while", B(True), ["block", E(["bin", "+=", V("c"), I(1)]),
+                                   ["stm", ["match", ["pre", "deref", V("c")], ["aval", [I(3)], ["block", ["stm", "break"]]], ["aother", ["block", ["stm", "continue"]]]]]]]],
+        E(["pre", "deref", V("c")])]),
     ("match-value-order", ["C07", "C12"], [
         ["set", "log", ["expr", ["mut", ["arr", "int"], ["array"]]]],
         ["fndecl", "t", [["n", "int"]], "int", [E(["bin", "+=", V("log"), ["array", V("n")]]), ret(V("n"))]],
